@@ -109,7 +109,8 @@ pub fn run_scenario(sc: &Scenario) -> Value {
             std::thread::sleep(Duration::from_micros(200));
         }
     }
-    let closed = main.is_closed();
+    // (a thread that never returned may hold the market's lock for good: do not ask the market anything then)
+    let closed = if hung == 0 { main.is_closed() } else { false };
     let mut events = crate::hooks::stop_capture();
     events.push(json!({"ev": "End", "thread": "", "arg1": hung, "arg2": 0, "open": false, "thread_count": 0,
                        "open_count": 0, "batches": []}));
@@ -130,8 +131,13 @@ pub fn main_market(inp: &str, out: &str) {
         }
         let sc: Scenario = serde_json::from_str(&line).expect("scenario");
         let r = run_scenario(&sc);
+        let hung = r["hung"].as_u64().unwrap_or(0) > 0;
         serde_json::to_writer(&mut o, &r).unwrap();
         o.write_all(b"\n").unwrap();
+        if hung {
+            // the stuck threads are leaked (possibly spinning): later scenarios would not run under fair conditions
+            break;
+        }
     }
     o.flush().unwrap();
 }
